@@ -164,6 +164,13 @@ def gen_case(rng):
     return {'shape': list(shape), 'keypoints': S.random_kps(rng, shape), 'seed': R.pick_seed(rng)}
 
 
+def check_sized(case, viol):
+    import sizedcrop
+    bad = sizedcrop.check(case, 'keypoints')
+    if bad and bad[0] in ('keypoint', 'keypoint-lost', 'image', 'raises'):
+        viol.append({'site': 'C03:RandomSizedCrop:%s' % bad[0], 'kind': 'sized', 'case': case, 'observed': bad[1], 'expected': bad[2]})
+
+
 def check_near(case, viol):
     import search.C19 as C19
     bad = C19.check_near(case, faces=False, check_boxes=False)
@@ -228,6 +235,13 @@ def run(seed=0, tier='quick', hints=None, broken=False):
             seen.add(('CropAndPad-sweep', repr(c['args'].get('px', c['args'].get('percent')))))
     # RandomCropNearBBox: keypoints are expressed in the CLAMPED window the image shows, also when the drawn window
     # passes the near or the far faces of the volume (oracle shared with C19)
+    # RandomSizedCrop with a different zoom per axis: annotations follow their voxels (window read off the output)
+    import sizedcrop
+    for i in range(10 if tier == 'quick' else 250):
+        case = sizedcrop.gen_case(rng)
+        check_sized(case, viol)
+        evals += 1
+        seen.add(('RandomSizedCrop', tuple(case['shape']), case['kw']['w2h_ratio']))
     import search.C19 as C19
     for i in range(8 if tier == 'quick' else 200):
         case = C19.gen_case(rng, 'near', touch_far=(i % 4 == 0), touch_low=(i % 4 == 2))
@@ -253,7 +267,9 @@ def run(seed=0, tier='quick', hints=None, broken=False):
 
 def replay(v):
     viol = []
-    if v.get('kind') == 'near':
+    if v.get('kind') == 'sized':
+        check_sized(v['case'], viol)
+    elif v.get('kind') == 'near':
         check_near(v['case'], viol)
     elif v.get('kind') == 'rotation':
         check_rotation(v['case'], viol)
